@@ -82,7 +82,7 @@ pub fn profile(name: &str) -> Profile {
         signals: 0,
     };
     match name {
-        "C01" => Profile { name: "C01", w_token: 8, reuse_bias: 4, kinds: [4, 3, 3, 4, 0, 0, 0, 0, 0], err_returns: true, ..base },
+        "C01" => Profile { name: "C01", w_token: 8, reuse_bias: 4, kinds: [4, 3, 3, 4, 1, 0, 0, 5, 0], w_cause: 10, err_returns: true, ..base },
         "C02" => Profile { name: "C02", w_cause: 12, max_sources: 8, kinds: [3, 3, 2, 6, 0, 0, 0, 0, 0], ..base },
         "C03" => Profile { name: "C03", kinds: [10, 0, 1, 1, 0, 0, 0, 0, 0], w_cause: 12, ..base },
         "C04" => Profile { name: "C04", kinds: [1, 10, 1, 0, 0, 0, 0, 0, 0], w_cause: 14, ..base },
@@ -388,11 +388,13 @@ impl G {
         match k {
             KindTag::Ping => Op::InsertPing { id, script },
             KindTag::Channel => {
-                let bound = match self.rng.below(6) {
+                let bound = match self.rng.below(8) {
                     0 => Some(0),
                     1 => Some(1),
                     2 => Some(2),
                     3 => Some(8),
+                    // bounds above the 1024 batch limit
+                    4 => Some(*self.rng.pick(&[1025u32, 1500, 4096])),
                     _ => None,
                 };
                 Op::InsertChannel { id, bound, script }
